@@ -471,6 +471,9 @@ def judge(res, h):
     elif err:
         raise Undecided('cbmc reported status %s for %d obligations (solver gave up: memory limit or internal error), first: %s'
                         % (err[0]['status'], len(err), err[0]['name']))
+    unw_early = [o for o in obs if o['class'] == 'unwind' and o['status'] == 'FAILURE']
+    if unw_early and not hard_fail:
+        raise Undecided('unwinding assertion failed (bound too small): ' + (unw_early[0]['name'] or ''))
     reach = [o for o in obs if o['class'] == 'reach']
     if not reach:
         raise Undecided('no REACH obligation in harness (vacuity guard missing)')
